@@ -179,6 +179,11 @@ func (mh *MessageHandler) fromIPLD(ibm *ipldbind.GraphSyncMessageRoot) (message.
 				continue
 			}
 
+			// a new request names what it asks for; without either it is malformed
+			if req.Root == nil || req.Selector == nil || *req.Selector == nil {
+				return message.GraphSyncMessage{}, fmt.Errorf("invalid new request %s: root and selector are required", id.String())
+			}
+
 			root := cid.Undef
 			if req.Root != nil {
 				root = *req.Root
